@@ -330,7 +330,110 @@ func runParity(c *core.Ctx) []core.Obligation {
 		}
 	}
 	obs = append(obs, vertexModelSites(c)...)
+	obs = append(obs, referencePointParity(c))
+	obs = append(obs, edgeIDAccessor(c)...)
 	return obs
+}
+
+// referencePointParity (after round-6 seed C04-r6m1, `containsOrigin != l.ContainsOrigin()` turned into `||`):
+// Polygon.ReferencePoint tells the index builder whether the fixed origin is inside the polygon, and the origin is
+// inside exactly when an odd number of loops contain it. The accumulated flag therefore starts false and is
+// updated in the loop over p.loops as flag = flag != l.ContainsOrigin() (or ^) and nothing else.
+func referencePointParity(c *core.Ctx) core.Obligation {
+	const key = "Polygon.ReferencePoint:xor-over-loops"
+	fn := c.Fn("s2", "Polygon", "ReferencePoint")
+	if fn == nil {
+		return core.Ob("R-PARITY", key, "-", "", core.Violated, "unresolved anchor")
+	}
+	var arg ssa.Value
+	core.AllInstrs(fn, func(in ssa.Instruction) {
+		if call, ok := in.(*ssa.Call); ok {
+			if sc := core.StaticCallee(call); sc != nil && sc.Name() == "OriginReferencePoint" && len(call.Call.Args) == 1 {
+				arg = call.Call.Args[0]
+			}
+		}
+	})
+	site := c.Pos(fn.Pos())
+	phi, ok := arg.(*ssa.Phi)
+	if !ok {
+		return core.Ob("R-PARITY", key, site, core.FuncName(fn), core.Violated, "the value given to OriginReferencePoint is not a flag accumulated over the loops of the polygon")
+	}
+	good, inits := 0, 0
+	for _, e := range phi.Edges {
+		if cst, ok := e.(*ssa.Const); ok {
+			if cst.Value != nil && cst.Value.String() == "false" {
+				inits++
+				continue
+			}
+			return core.Ob("R-PARITY", key, site, core.FuncName(fn), core.Violated, "the origin flag does not start from false")
+		}
+		if e == ssa.Value(phi) {
+			continue // the path of a loop that does not contain the origin: unchanged
+		}
+		if u, isU := e.(*ssa.UnOp); isU && u.Op == token.NOT && u.X == ssa.Value(phi) {
+			// the toggle form: if l.ContainsOrigin() { flag = !flag }
+			byOrigin := false
+			for _, b := range fn.Blocks {
+				if ifi, isIf := b.Instrs[len(b.Instrs)-1].(*ssa.If); isIf {
+					if call, isC := ifi.Cond.(*ssa.Call); isC && core.StaticCallee(call) != nil && core.StaticCallee(call).Name() == "ContainsOrigin" {
+						if core.EdgeDominates(core.Edge{From: b, Idx: 0}, u.Block()) {
+							byOrigin = true
+						}
+					}
+				}
+			}
+			if byOrigin {
+				good++
+				continue
+			}
+		}
+		// the toggle form: if l.ContainsOrigin() { flag = !flag } shows up as phi(flag, !flag) one level down
+		if inner, isPhi := e.(*ssa.Phi); isPhi && len(inner.Edges) == 2 {
+			toggle := func(a, b ssa.Value) bool {
+				u, isU := b.(*ssa.UnOp)
+				return a == ssa.Value(phi) && isU && u.Op == token.NOT && u.X == ssa.Value(phi)
+			}
+			if toggle(inner.Edges[0], inner.Edges[1]) || toggle(inner.Edges[1], inner.Edges[0]) {
+				// ... and the toggle is chosen by the loop's ContainsOrigin()
+				byOrigin := false
+				for _, pred := range inner.Block().Preds {
+					for _, pp := range append([]*ssa.BasicBlock{pred}, pred.Preds...) {
+						if ifi, isIf := pp.Instrs[len(pp.Instrs)-1].(*ssa.If); isIf {
+							if call, isC := ifi.Cond.(*ssa.Call); isC && core.StaticCallee(call) != nil && core.StaticCallee(call).Name() == "ContainsOrigin" {
+								byOrigin = true
+							}
+						}
+					}
+				}
+				if byOrigin {
+					good++
+					continue
+				}
+			}
+		}
+		bo, ok := e.(*ssa.BinOp)
+		if !ok || (bo.Op != token.NEQ && bo.Op != token.XOR) {
+			return core.Ob("R-PARITY", key, site, core.FuncName(fn), core.Violated,
+				"the origin flag is not updated as flag != l.ContainsOrigin(): the origin is inside the polygon exactly when an ODD number of loops contain it (a shell and its hole both containing the origin leave it outside); any other combination gives the index builder the wrong starting state, and every indexed ContainsPoint answer is inverted")
+		}
+		isCall := func(v ssa.Value) bool {
+			call, ok := v.(*ssa.Call)
+			if !ok {
+				return false
+			}
+			sc := core.StaticCallee(call)
+			return sc != nil && sc.Name() == "ContainsOrigin"
+		}
+		if (bo.X == phi && isCall(bo.Y)) || (bo.Y == phi && isCall(bo.X)) {
+			good++
+			continue
+		}
+		return core.Ob("R-PARITY", key, site, core.FuncName(fn), core.Violated, "the origin flag is combined with something other than the loop's ContainsOrigin()")
+	}
+	if good != 1 || inits != 1 {
+		return core.Ob("R-PARITY", key, site, core.FuncName(fn), core.Violated, "unexpected shape of the origin-flag accumulation")
+	}
+	return core.Ob("R-PARITY", key, site, core.FuncName(fn), core.Discharged, "starts false, toggled once per loop that contains the origin")
 }
 
 // vertexModelSites: wherever the library itself answers "is this point inside" through a ContainsPointQuery (the
@@ -514,4 +617,97 @@ func restartGuarded(fn *ssa.Function) bool {
 		}
 	})
 	return ok
+}
+
+// edgeIDAccessor (after round-6 seed C05-r6m3, iteratorContainsPoint switched to OrientedVertex): a loop's own index
+// is built from Loop.Edge(i), which reads its endpoints with one accessor. The edge ids stored in the index cells mean
+// "edge i as Loop.Edge enumerates it", so every function that walks the clipped edge ids of a loop's own index must
+// read the endpoints with the same accessor; for a hole (odd depth) the other accessor yields mirror-image edges.
+func edgeIDAccessor(c *core.Ctx) []core.Obligation {
+	const rule = "R-PARITY"
+	edge := c.Fn("s2", "Loop", "Edge")
+	if edge == nil {
+		return []core.Obligation{core.Ob(rule, "edge-id-accessor:anchor", "-", "", core.Violated, "unresolved anchor (*Loop).Edge")}
+	}
+	isVertexAccessor := func(f *ssa.Function) bool {
+		if f == nil || f.Signature.Recv() == nil || !core.IsNamed(f.Signature.Recv().Type(), "s2", "Loop") {
+			return false
+		}
+		sig := f.Signature
+		if sig.Params().Len() != 1 || sig.Results().Len() != 1 || !core.IsNamed(sig.Results().At(0).Type(), "s2", "Point") {
+			return false
+		}
+		b, ok := sig.Params().At(0).Type().Underlying().(*types.Basic)
+		return ok && b.Kind() == types.Int
+	}
+	accessors := map[string]bool{}
+	core.AllInstrs(edge, func(in ssa.Instruction) {
+		if call, ok := in.(*ssa.Call); ok {
+			if f := core.StaticCallee(call); isVertexAccessor(f) {
+				accessors[f.Name()] = true
+			}
+		}
+	})
+	if len(accessors) != 1 {
+		return []core.Obligation{core.Ob(rule, "edge-id-accessor:anchor", c.Pos(edge.Pos()), core.FuncName(edge), core.Violated, "unresolved anchor: (*Loop).Edge does not read its endpoints through exactly one vertex accessor")}
+	}
+	var acc string
+	for k := range accessors {
+		acc = k
+	}
+	var obs []core.Obligation
+	sites := 0
+	for _, fn := range c.GeoFuncs() {
+		// only the loop's own walkers: methods of Loop and of loopCrosser
+		recv := fn.Signature.Recv()
+		if recv == nil || !(core.IsNamed(recv.Type(), "s2", "Loop") || core.IsNamed(recv.Type(), "s2", "loopCrosser")) {
+			continue
+		}
+		walks := false
+		core.AllInstrs(fn, func(in ssa.Instruction) {
+			if fa, ok := in.(*ssa.FieldAddr); ok {
+				if fr, ok := core.AsFieldAddr(fa); ok && fr.Name == "edges" && fr.Struct != nil && fr.Struct.Obj().Name() == "clippedShape" {
+					walks = true
+				}
+			}
+			if f, ok := in.(*ssa.Field); ok {
+				if fr, ok := core.AsFieldLoad(f); ok && fr.Name == "edges" && fr.Struct != nil && fr.Struct.Obj().Name() == "clippedShape" {
+					walks = true
+				}
+			}
+		})
+		if !walks {
+			continue
+		}
+		n, bad := 0, ""
+		core.AllInstrs(fn, func(in ssa.Instruction) {
+			call, ok := in.(*ssa.Call)
+			if !ok {
+				return
+			}
+			f := core.StaticCallee(call)
+			if !isVertexAccessor(f) {
+				return
+			}
+			n++
+			if f.Name() != acc && bad == "" {
+				bad = fmt.Sprintf("%s reads an endpoint with %s at %s", core.FuncName(fn), f.Name(), c.Pos(call.Pos()))
+			}
+		})
+		if n == 0 {
+			continue
+		}
+		sites += n
+		key := "edge-id-accessor:" + core.FuncName(fn)
+		if bad != "" {
+			obs = append(obs, core.Ob(rule, key, c.Pos(fn.Pos()), core.FuncName(fn), core.Violated,
+				bad+", but the edge ids in the loop's index are positions in the enumeration of (*Loop).Edge, which uses "+acc+": for a loop of odd depth (a polygon hole) the two accessors run in opposite directions, so the crossing count is taken against mirror-image edges and containment of the hole's interior is wrong"))
+		} else {
+			obs = append(obs, core.Ob(rule, key, c.Pos(fn.Pos()), core.FuncName(fn), core.Discharged, fmt.Sprintf("%d endpoint reads, all through %s like (*Loop).Edge", n, acc)))
+		}
+	}
+	if sites < 6 {
+		obs = append(obs, core.Ob(rule, "edge-id-accessor:anchor", "-", "", core.Violated, fmt.Sprintf("unresolved anchor: only %d endpoint reads in walkers of clipped edge ids, 6 expected", sites)))
+	}
+	return obs
 }
